@@ -69,7 +69,9 @@ def nontrivial(req, obs):
 
 PROP = {
     "id": "C14",
-    "lean_targets": ["WmModel.Props.C14", "WmModel.Props.C14Tie"],
+    "lean_targets": ["WmModel.Props.C14", "WmModel.Props.C14Tie", "WmModel.Props.C14Router", "WmModel.Props.C02Tie"],
+    # the composition with the Router is stated on the handleMessage model: its body is re-extracted and its tie re-proved here too
+    "extract_also": ["C02"],
     "audit_module": "Audit.C14",
     "theorems": [
         "Wm.Dedup.one_per_window", "Wm.Dedup.one_per_window_from", "Wm.Dedup.remembered_at_least_window",
@@ -90,8 +92,11 @@ PROP = {
         "Wm.Dedup.nodup_keys", "Wm.Dedup.duplicate_does_not_refresh",
         "Wm.Dedup.take_eq_iff", "Wm.Dedup.effLimit_spec", "Wm.Dedup.hash_equal_prefix",
         "Wm.Dedup.sha_distinct_partial", "Wm.Dedup.hash_ignores_tail",
+        # the middleware inside a Router: composition with the C02/C03 models (Props/C14Router.lean)
+        "Wm.Dedup.duplicate_is_acked_unhandled", "Wm.Dedup.first_is_settled_as_handler_says", "Wm.Dedup.key_error_is_nacked",
     ],
     "tie_theorems": [
+        "Wm.GoHandle.handle_skeleton_eq_model", "Wm.GoHandle.publish_skeleton_eq_model",
         "Wm.GoDedup.extracted_isDuplicate_eq_model", "Wm.GoDedup.extracted_isDuplicate_one_section",
         "Wm.GoDedup.extracted_cleanOut_eq_model",
         "Wm.GoDedup.extracted_middleware_eq_model", "Wm.GoDedup.extracted_publish_eq_model",
